@@ -2,8 +2,8 @@
 #include "gen.h"
 #include "rt.h"
 
-uint8_t HEAP[HEAP_SIZE];
-uint8_t STK[STK_SIZE];
+uint64_t HEAP[HEAP_SIZE / 8];
+uint64_t STK[STK_SIZE / 8];
 uint64_t SP = STK_BASE;
 int EXC, EXC_TYPE, STOPPED, STOP_IS_FAILURE;
 uint64_t EXC_OBJ;
@@ -17,64 +17,59 @@ void ir_assume_fail(void) { printf("ASSUME-FAILED\n"); fflush(stdout); exit(77);
 #endif
 
 #define INR(a, base, size, n) ((a) >= (base) && (a) - (base) <= (uint64_t)(size) - (n))
+#ifdef IR_ONLY_HEAP
+#define MASKFIX m &= RH;
+#else
+#define MASKFIX
+#endif
 
-uint8_t ld8(uint64_t a, int m)
+/* Memory is word-granular: one decode of the (symbolic) word index serves a whole 8-byte access, which is what
+ * almost every access of the library is.  Narrow and unaligned accesses read-modify-write one or two words. */
+#define NMASK(N) ((N) >= 8 ? ~UINT64_C(0) : ((UINT64_C(1) << (8 * (N))) - 1))
+#define RDN(A, o, N, r)                                                                     \
+    do {                                                                                    \
+        uint64_t i_ = (o) >> 3, b_ = (o) & 7, sh_ = b_ * 8;                                 \
+        r = A[i_] >> sh_;                                                                   \
+        if (b_ + (N) > 8) r |= A[i_ + 1] << (64 - sh_);                                     \
+        r &= NMASK(N);                                                                      \
+    } while (0)
+#define WRN(A, o, N, v)                                                                     \
+    do {                                                                                    \
+        uint64_t i_ = (o) >> 3, b_ = (o) & 7, sh_ = b_ * 8, v_ = (uint64_t)(v) & NMASK(N);  \
+        A[i_] = (A[i_] & ~(NMASK(N) << sh_)) | (v_ << sh_);                                 \
+        if (b_ + (N) > 8)                                                                   \
+            A[i_ + 1] = (A[i_ + 1] & ~(NMASK(N) >> (64 - sh_))) | (v_ >> (64 - sh_));       \
+    } while (0)
+
+static uint64_t ldn(uint64_t a, int m, int N)
 {
-    if ((m & RH) && INR(a, HEAP_BASE, HEAP_SIZE, 1)) return HEAP[a - HEAP_BASE];
-    if ((m & RS) && INR(a, STK_BASE, STK_SIZE, 1)) return STK[a - STK_BASE];
-    if ((m & RG) && INR(a, GLB_BASE, GLB_SIZE, 1)) return GLB[a - GLB_BASE];
-    if ((m & RC) && INR(a, GLC_BASE, GLC_SIZE, 1)) return GLC[a - GLC_BASE];
+    uint64_t r = 0;
+    MASKFIX
+    if ((m & RH) && INR(a, HEAP_BASE, HEAP_SIZE, N)) { uint64_t o = a - HEAP_BASE; RDN(HEAP, o, N, r); return r; }
+    if ((m & RS) && INR(a, STK_BASE, STK_SIZE, N)) { uint64_t o = a - STK_BASE; RDN(STK, o, N, r); return r; }
+    if ((m & RG) && INR(a, GLB_BASE, GLB_SIZE, N)) { uint64_t o = a - GLB_BASE; RDN(GLB, o, N, r); return r; }
+    if ((m & RC) && INR(a, GLC_BASE, GLC_SIZE, N)) { uint64_t o = a - GLC_BASE; RDN(GLC, o, N, r); return r; }
     IR_CHECK(0, "load outside every memory region");
     return 0;
 }
-void st8(uint64_t a, uint8_t v, int m)
+static void stn(uint64_t a, uint64_t v, int m, int N)
 {
-    if ((m & RH) && INR(a, HEAP_BASE, HEAP_SIZE, 1)) { HEAP[a - HEAP_BASE] = v; return; }
-    if ((m & RS) && INR(a, STK_BASE, STK_SIZE, 1)) { STK[a - STK_BASE] = v; return; }
-    if ((m & RG) && INR(a, GLB_BASE, GLB_SIZE, 1)) { GLB[a - GLB_BASE] = v; return; }
+    MASKFIX
+    if ((m & RH) && INR(a, HEAP_BASE, HEAP_SIZE, N)) { uint64_t o = a - HEAP_BASE; WRN(HEAP, o, N, v); return; }
+    if ((m & RS) && INR(a, STK_BASE, STK_SIZE, N)) { uint64_t o = a - STK_BASE; WRN(STK, o, N, v); return; }
+    if ((m & RG) && INR(a, GLB_BASE, GLB_SIZE, N)) { uint64_t o = a - GLB_BASE; WRN(GLB, o, N, v); return; }
     IR_CHECK(0, "store outside every writable memory region");
 }
-#define LDN(name, T, N)                                                                     \
-    T name(uint64_t a, int m)                                                               \
-    {                                                                                       \
-        T r = 0;                                                                            \
-        if ((m & RH) && INR(a, HEAP_BASE, HEAP_SIZE, N)) {                                  \
-            for (int i = 0; i < N; ++i) r |= (T)HEAP[a - HEAP_BASE + i] << (8 * i);         \
-            return r; }                                                                     \
-        if ((m & RS) && INR(a, STK_BASE, STK_SIZE, N)) {                                    \
-            for (int i = 0; i < N; ++i) r |= (T)STK[a - STK_BASE + i] << (8 * i);           \
-            return r; }                                                                     \
-        if ((m & RG) && INR(a, GLB_BASE, GLB_SIZE, N)) {                                    \
-            for (int i = 0; i < N; ++i) r |= (T)GLB[a - GLB_BASE + i] << (8 * i);           \
-            return r; }                                                                     \
-        if ((m & RC) && INR(a, GLC_BASE, GLC_SIZE, N)) {                                    \
-            for (int i = 0; i < N; ++i) r |= (T)GLC[a - GLC_BASE + i] << (8 * i);           \
-            return r; }                                                                     \
-        IR_CHECK(0, "load outside every memory region");                                    \
-        return 0;                                                                           \
-    }
-#define STN(name, T, N)                                                                     \
-    void name(uint64_t a, T v, int m)                                                       \
-    {                                                                                       \
-        if ((m & RH) && INR(a, HEAP_BASE, HEAP_SIZE, N)) {                                  \
-            for (int i = 0; i < N; ++i) HEAP[a - HEAP_BASE + i] = (uint8_t)(v >> (8 * i));  \
-            return; }                                                                       \
-        if ((m & RS) && INR(a, STK_BASE, STK_SIZE, N)) {                                    \
-            for (int i = 0; i < N; ++i) STK[a - STK_BASE + i] = (uint8_t)(v >> (8 * i));    \
-            return; }                                                                       \
-        if ((m & RG) && INR(a, GLB_BASE, GLB_SIZE, N)) {                                    \
-            for (int i = 0; i < N; ++i) GLB[a - GLB_BASE + i] = (uint8_t)(v >> (8 * i));    \
-            return; }                                                                       \
-        IR_CHECK(0, "store outside every writable memory region");                          \
-    }
-LDN(ld16, uint16_t, 2)
-LDN(ld32, uint32_t, 4)
-LDN(ld64, uint64_t, 8)
-LDN(ld128, u128, 16)
-STN(st16, uint16_t, 2)
-STN(st32, uint32_t, 4)
-STN(st64, uint64_t, 8)
-STN(st128, u128, 16)
+uint8_t ld8(uint64_t a, int m) { return (uint8_t)ldn(a, m, 1); }
+uint16_t ld16(uint64_t a, int m) { return (uint16_t)ldn(a, m, 2); }
+uint32_t ld32(uint64_t a, int m) { return (uint32_t)ldn(a, m, 4); }
+uint64_t ld64(uint64_t a, int m) { return ldn(a, m, 8); }
+u128 ld128(uint64_t a, int m) { return (u128)ldn(a, m, 8) | (u128)ldn(a + 8, m, 8) << 64; }
+void st8(uint64_t a, uint8_t v, int m) { stn(a, v, m, 1); }
+void st16(uint64_t a, uint16_t v, int m) { stn(a, v, m, 2); }
+void st32(uint64_t a, uint32_t v, int m) { stn(a, v, m, 4); }
+void st64(uint64_t a, uint64_t v, int m) { stn(a, v, m, 8); }
+void st128(uint64_t a, u128 v, int m) { stn(a, (uint64_t)v, m, 8); stn(a + 8, (uint64_t)(v >> 64), m, 8); }
 
 uint64_t ir_alloca(uint64_t size, int align)
 {
@@ -94,24 +89,23 @@ void ir_memmove(uint64_t d, uint64_t s, uint64_t n)
     }
 }
 
+static void memset_words(uint64_t* A, uint64_t lo, uint64_t n, uint8_t v)
+{   /* bytes [lo, lo+n) of the word array A := v ; one read-modify-write per touched word */
+    uint64_t hi = lo + n, pat = UINT64_C(0x0101010101010101) * v;
+    for (uint64_t w = lo >> 3; w <= (hi - 1) >> 3; ++w) {
+        uint64_t wlo = w << 3, mk = ~UINT64_C(0);
+        if (lo > wlo) mk &= ~UINT64_C(0) << ((lo - wlo) * 8);
+        if (hi < wlo + 8) mk &= ~UINT64_C(0) >> ((wlo + 8 - hi) * 8);
+        A[w] = (A[w] & ~mk) | (pat & mk);
+    }
+}
 void ir_memset(uint64_t d, uint8_t v, uint64_t n)
 {
     if (n == 0) return;
-#if defined(IR_MEMSET_ARRAY) && !defined(IR_GCC)
-    if (INR(d, HEAP_BASE, HEAP_SIZE, 1) && n <= HEAP_SIZE - (d - HEAP_BASE)) {
-        uint8_t NEW[HEAP_SIZE];
-        uint64_t lo = d - HEAP_BASE, hi = lo + n;
-        __CPROVER_assume(__CPROVER_forall { uint64_t j; (j < HEAP_SIZE) ==> NEW[j] == ((j >= lo && j < hi) ? v : HEAP[j]) });
-        __CPROVER_array_replace(HEAP, NEW);
-        return;
-    }
-#else
-    if (INR(d, HEAP_BASE, HEAP_SIZE, 1) && n <= HEAP_SIZE - (d - HEAP_BASE)) {
-        for (uint64_t i = 0; i < n; ++i) HEAP[d - HEAP_BASE + i] = v;
-        return;
-    }
-#endif
-    for (uint64_t i = 0; i < n; ++i) st8(d + i, v, 7);
+    if (INR(d, HEAP_BASE, HEAP_SIZE, 1) && n <= HEAP_SIZE - (d - HEAP_BASE)) { memset_words(HEAP, d - HEAP_BASE, n, v); return; }
+    if (INR(d, STK_BASE, STK_SIZE, 1) && n <= STK_SIZE - (d - STK_BASE)) { memset_words(STK, d - STK_BASE, n, v); return; }
+    if (INR(d, GLB_BASE, GLB_SIZE, 1) && n <= GLB_SIZE - (d - GLB_BASE)) { memset_words(GLB, d - GLB_BASE, n, v); return; }
+    IR_CHECK(0, "memset outside every writable memory region");
 }
 
 uint64_t ir_ctlz(uint64_t x, int bits)
@@ -164,7 +158,7 @@ void ir_stop(void)
 }
 void ir_trap(void) { ir_stop(); }
 void ir_fence(void) {}
-#ifdef IR_GCC
+#if defined(IR_GCC) || !defined(IR_THREADS)
 void ir_atomic_begin(void) {}
 void ir_atomic_end(void) {}
 #else
